@@ -83,6 +83,9 @@ class C05(Prop):
                     if len(rows) == n and len({tuple(r) for r in rows}) == n:
                         break
 
+                if proc == "gaussian" and n >= 2 and np.any(np.asarray(sys["lb"]) > 0) and rng.random() < 0.6:
+                    # a target equal to the capture in darkness (no light-induced capture at all) although the sources cannot be switched off
+                    rows[n - 1] = gs.rel_capture(sys, np.zeros(sys["n"])).tolist(); kinds[n - 1] = "dark"
                 if n >= 3 and rng.random() < 0.5:
                     # two rows share a target but not their weights (row independence must still hold)
                     rows[n - 1] = list(rows[0]); kinds[n - 1] = kinds[0]
@@ -128,6 +131,9 @@ class C05(Prop):
             est = gs.make_estimator(sys, w=1.0)
             est.register_targets(B, W=W)
         proc = case["proc"]
+        if bs == "full" and proc == "gaussian" and len(B) >= 2:
+            # the same system was fitted with batch_size='full' for another number of rows just before
+            gs.warm(lambda: est.fit(B[:-1], model="gaussian", batch_size="full", **HI))
         core.drain_hooks()
         if proc == "variance" and case["sys"].get("l1"):
             Xo, _ = est.fit(B, **HI)
